@@ -742,9 +742,12 @@ func runC09(c *core.Ctx) core.Meta {
 				field := map[string]string{"SGPROffset": "WFSgprCount", "VGPROffset": "WIVgprCount", "LDSOffset": "GroupSegmentByteSize"}[m[1]]
 				g2 := map[string]string{"SGPROffset": gran["sregGranularity"], "VGPROffset": gran["vregGranularity"], "LDSOffset": gran["ldsGranularity"]}[m[1]]
 				okU := regexp.MustCompile(`^recv\.unitsOccupy\(.*\.CodeObject\.` + field + `,` + g2 + `\)$`).MatchString(u)
+				if m[1] == "LDSOffset" {
+					okU = ldsDemandOK(c, prov, u, g2)
+				}
 				st5.Ob(okU)
 				if !okU {
-					c.ReportAt("R09.5", ff, in.Pos(), "free:"+m[1]+":units", "the number of units freed ("+short(u)+") is not unitsOccupy(CodeObject."+field+", granularity) as reserved")
+					c.ReportAt("R09.5", ff, in.Pos(), "free:"+m[1]+":units", "the number of units freed ("+short(u)+") is not the demand that was reserved ("+demandText(m[1], field)+")")
 				}
 			}
 		}
@@ -768,9 +771,12 @@ func runC09(c *core.Ctx) core.Meta {
 				}
 				u := prov.Of(cc.Args[idx])
 				ok := regexp.MustCompile(`^recv\.unitsOccupy\(.*\.CodeObject\.` + spec[0] + `,recv\.` + spec[1] + `\)$`).MatchString(u)
+				if f == "withinLDSLimitation" {
+					ok = ldsDemandOK(c, prov, u, "recv."+spec[1])
+				}
 				st5.Ob(ok)
 				if !ok {
-					c.ReportAt("R09.5", fn, in.Pos(), f+":units", "the demand checked/marked ("+short(u)+") is not unitsOccupy(CodeObject."+spec[0]+", "+spec[1]+")")
+					c.ReportAt("R09.5", fn, in.Pos(), f+":units", "the demand checked/marked ("+short(u)+") is not "+demandText(map[string]string{"withinLDSLimitation": "LDSOffset"}[f], spec[0])+" in units of "+spec[1])
 				}
 			}
 		}
@@ -800,4 +806,93 @@ func runC09(c *core.Ctx) core.Meta {
 		Explanation: "Structural clauses of work-group dispatch decided on SSA of the dispatcher, the three placement algorithms (as siblings of one interface), the CU resource bookkeeping and the CP's dispatcher selection: valid location only after a successful reservation on the named CU, counter/slot updates on the success path, SEND-DISCIPLINE and PAIR on the map request, completion accounting per ID, launch response only under kernelCompleted() (whose three conjuncts are checked), idle-dispatcher selection, reserve/commit/clear/free symmetry of masks, status constants, slot counts and offset granularities.",
 		NotDecided:  "that masks never overlap for every demand sequence (value level); resourceMask internals; LDS demand taken from the right descriptor field; CU-side completion (decided under C14)",
 		Assumptions: commonAssumptions}
+}
+
+func demandText(kind, field string) string {
+	if kind == "LDSOffset" {
+		return "the LDS size of the dispatch packet (Packet.GroupSegmentSize, static plus dynamic local memory — the size the compute unit allocates), at least the code object's static size"
+	}
+	return "unitsOccupy(CodeObject." + field + ", granularity)"
+}
+
+// ldsDemandOK: u is unitsOccupy(D, gran) where D is the packet's LDS size, or a
+// helper of the resource package that returns the larger of the packet's LDS
+// size and the code object's static size.
+func ldsDemandOK(c *core.Ctx, prov *core.Prov, u, gran string) bool {
+	m := regexp.MustCompile(`^recv\.unitsOccupy\((.*),` + regexp.QuoteMeta(gran) + `\)$`).FindStringSubmatch(u)
+	if m == nil {
+		return false
+	}
+	d := m[1]
+	if regexp.MustCompile(`^[^(){}|]*\.Packet\.GroupSegmentSize$`).MatchString(d) {
+		return true
+	}
+	h := regexp.MustCompile(`^resource\.(\w+)\([^(){}|]*\)$`).FindStringSubmatch(d)
+	if h == nil {
+		return false
+	}
+	fn := c.SSAFunc(resPkg, h[1])
+	if fn == nil {
+		return false
+	}
+	c.MarkAnalysed(fn)
+	lp := core.NewLocalProv(c)
+	isPkt := func(v ssa.Value) bool { return strings.HasSuffix(lp.Of(core.StripConv(v)), ".Packet.GroupSegmentSize") }
+	isCO := func(v ssa.Value) bool {
+		return strings.HasSuffix(lp.Of(core.StripConv(v)), ".CodeObject.GroupSegmentByteSize")
+	}
+	okRet, sawCmp := false, false
+	for _, b := range fn.Blocks {
+		for _, in := range b.Instrs {
+			if r, ok := in.(*ssa.Return); ok && len(r.Results) == 1 {
+				pv := lp.Of(core.StripConv(r.Results[0]))
+				if strings.Contains(pv, ".Packet.GroupSegmentSize") && !regexp.MustCompile(`[-+*/]`).MatchString(strings.ReplaceAll(pv, ".Packet.GroupSegmentSize", "")) || strings.HasPrefix(pv, "max(") {
+					okRet = true
+				}
+				if strings.HasPrefix(pv, "max(") {
+					sawCmp = true
+				}
+			}
+			bo, ok := in.(*ssa.BinOp)
+			if !ok {
+				continue
+			}
+			var pktGreaterOnTrue bool
+			switch {
+			case (bo.Op == token.GTR || bo.Op == token.GEQ) && isPkt(bo.X) && isCO(bo.Y), (bo.Op == token.LSS || bo.Op == token.LEQ) && isCO(bo.X) && isPkt(bo.Y):
+				pktGreaterOnTrue = true
+			case (bo.Op == token.LSS || bo.Op == token.LEQ) && isPkt(bo.X) && isCO(bo.Y), (bo.Op == token.GTR || bo.Op == token.GEQ) && isCO(bo.X) && isPkt(bo.Y):
+				pktGreaterOnTrue = false
+			default:
+				continue
+			}
+			for _, ref := range *bo.Referrers() {
+				iff, ok := ref.(*ssa.If)
+				if !ok {
+					continue
+				}
+				tb := iff.Block().Succs[0]
+				// the value chosen on the true side
+				for _, b2 := range fn.Blocks {
+					for _, i2 := range b2.Instrs {
+						phi, ok := i2.(*ssa.Phi)
+						if !ok {
+							continue
+						}
+						for k, e := range phi.Edges {
+							pred := b2.Preds[k]
+							if pred == tb || tb.Dominates(pred) {
+								if isPkt(e) == pktGreaterOnTrue && (isPkt(e) || isCO(e)) {
+									sawCmp = true
+								} else if isPkt(e) || isCO(e) {
+									return false // picks the smaller of the two sizes
+								}
+							}
+						}
+					}
+				}
+			}
+		}
+	}
+	return okRet && sawCmp
 }
